@@ -383,7 +383,7 @@ def judgeExtra2 (hNew hOld : HCtx) (op res : Array String) (dump : Option St) : 
     -- non-finite weights (NaN / inf) are reported with a feature: is the point within rounding
     -- distance of a hull edge (signature of finding K11)?
     if (res.toList.drop 1).any (fun t => match parseCoord t with
-        | some (.fin _) => false | some _ => t.length > 9 | none => false) then
+        | some (.fin _) => false | some _ => t.length ≥ 9 | none => false) then
       match parsePt (op.getD 1 "") (op.getD 2 "") with
       | some q =>
         let ext := s.extent [q]
